@@ -1,6 +1,6 @@
 """C17 -- spelling, voice and key estimation are total, well-formed and pitch-preserving.
 
-Four streams of cases, all drawn from ctx.rng:
+Streams of cases, all drawn from ctx.rng:
 
   spelling  estimate_spelling on shuffled note arrays     vs  statement (sounds the MIDI pitch,
             |alter| <= 2, row-order independence by re-running on a permutation)
@@ -12,6 +12,13 @@ Four streams of cases, all drawn from ctx.rng:
   key       estimate_key, three profile sets, every name  vs  statement (valid name, octave /
             rescale invariance, transposition equivariance) vs Model/C17_Key.v (near-ties skipped)
   midi      load_score_midi on files built with mido      vs  multiset of (onset, pitch) written
+  orders    estimate_spelling on arrays with unisons of different durations late in dense chromatic
+            contexts, canonical order vs seven others (four of them sorted by (onset, pitch))
+                                                          vs  note-by-note equality; model on the
+            tie-break-observable ones in a sorted non-canonical order
+  histories the three entry points called again and again on two arrays (views, read-only, edited
+            in place, results overwritten)               vs  statement on the CURRENT rows, fresh
+            copy, first answer, aliasing; Model/C17_History.v (state machine) for the spelling calls
 
 Constant tables (ps13 tables, key profile matrices, KEYS) are reflected from the working
 tree into coq/Gen/C17_*.v by gen() on every run; the kernel re-checks the proofs over them.
@@ -252,13 +259,13 @@ def _ints(values):
     return [int(f * L) for f in frs]
 
 
-def _coq_failing(ctx, name, imports, terms, checker, shard):
+def _coq_failing(ctx, name, imports, terms, checker, shard, ty=None):
     """ctx.coq_failing, but a model that no longer compiles/evaluates is a failed obligation, not a crash."""
     if not terms:
         ctx.obligation("correspondence (%s): no case reached the model" % name, False, "")
         return None
     try:
-        return ctx.coq_failing(name, imports, "", terms, checker, shard=shard)
+        return ctx.coq_failing(name, imports, "", terms, checker, shard=shard, ty=ty)
     except RuntimeError as e:
         ctx.obligation("correspondence (%s): the Coq model could not be evaluated" % name, False, str(e)[-800:])
         ctx.extra.setdefault("model_eval_errors", []).append(name)
@@ -592,6 +599,204 @@ def shrink_spelling(case):
         if fails(rows):
             small = core.ddmin(rows, fails)
             return {"kind": "spelling", "rows": small, "unit": list(unit), "kwargs": kw, "perm": list(range(len(small)))[::-1]}
+    except Exception:
+        pass
+    return case
+
+
+# ----------------------------------------------------------------------------
+# 1b. spelling: row orders that are ALREADY sorted -- and differ only inside the ties
+
+
+def gen_unison_rows(rng, int_times):
+    """A dense chromatic passage (12..70 onsets, pitches drawn uniformly from a register of one to four octaves) in which,
+    from the tenth note on (sometimes from the start), about a third of the notes are doubled by one or two notes of the
+    same onset and pitch but another duration (zero included), a sixth of the onsets are chords.  The context windows of
+    the members of such a unison differ by the one note that leaves the window (position - K_pre) and the one that enters
+    it (position + K_post): wherever that note tips the balance between two morphs the members are spelled differently,
+    and which member gets which spelling is decided by the duration key of the canonical order alone."""
+    n = rng.randint(12, 70)
+    durs = [1, 2, 3, 4, 6, 8] if int_times else [0.25, 0.5, 1, 1.5, 2, 3]
+    lo = rng.choice([21, 40, 45, 57, 60])
+    hi = min(108, lo + rng.choice([12, 24, 45, 45]))
+    start = rng.choice([0, 9, 9, 9])
+    step = 1 if int_times else rng.choice([0.5, 1])
+    rows, o = [], 0
+    for i in range(n):
+        p, d = rng.randint(lo, hi), rng.choice(durs)
+        rows.append((o, d, p))
+        if i >= start and rng.random() < 0.3:
+            others = [x for x in durs + [0] if x != d]
+            for d2 in rng.sample(others, 1 if rng.random() < 0.8 else 2):
+                rows.append((o, d2, p))
+        if rng.random() < 0.15:
+            rows.append((o, rng.choice(durs), rng.randint(lo, hi)))
+        if rng.random() < 0.8:
+            o += step
+    return rows
+
+
+def _canonical(rows):
+    return sorted(rows, key=lambda r: (r[0], r[2], r[1]))
+
+
+def order_variants(rng, rows):
+    """Row orders of one set of (onset, duration, pitch) rows: -> list of (name, rows).  The first ones are all sorted by
+    (onset, pitch) -- what a note array of a Part looks like -- and differ only inside the groups of equal (onset, pitch);
+    then orders sorted by onset only; then unsorted ones."""
+    canon = _canonical(rows)
+
+    def shuffled_groups(key):
+        groups, out = {}, []
+        for r in canon:
+            groups.setdefault(key(r), []).append(r)
+        for k in sorted(groups):
+            g = groups[k]
+            rng.shuffle(g)
+            out.extend(g)
+        return out
+
+    out = [("sorted by (onset, pitch), equal (onset, pitch) by DEcreasing duration", sorted(rows, key=lambda r: (r[0], r[2], -r[1]))),
+           ("sorted by (onset, pitch), equal (onset, pitch) in a drawn order", shuffled_groups(lambda r: (r[0], r[2])))]
+    pairs = [i for i in range(len(canon) - 1) if canon[i][0] == canon[i + 1][0] and canon[i][2] == canon[i + 1][2] and canon[i][1] != canon[i + 1][1]]
+    if pairs:
+        i = rng.choice(pairs[len(pairs) // 2:])         # one late unison exchanged, everything else canonical
+        one = list(canon)
+        one[i], one[i + 1] = one[i + 1], one[i]
+        out.append(("canonical order with ONE pair of equal (onset, pitch) exchanged (rows %d, %d)" % (i, i + 1), one))
+    out += [("sorted by onset, equal onsets by DEcreasing pitch", sorted(rows, key=lambda r: (r[0], -r[2], r[1]))),
+            ("sorted by onset, equal onsets in a drawn order", shuffled_groups(lambda r: r[0])),
+            ("canonical order reversed", canon[::-1])]
+    sh = list(canon)
+    rng.shuffle(sh)
+    out.append(("shuffled", sh))
+    return out
+
+
+def _judge_spelling(stored, out, kpost=40):
+    """the statement on one returned spelling against the rows it was asked about: -> None | description"""
+    if len(out) != len(stored):
+        return "estimate_spelling returned %d spellings for %d rows" % (len(out), len(stored))
+    for i, ((o, d, p), (st, al, oc)) in enumerate(zip(stored, out)):
+        if st not in STEP_PC:
+            return "row %d: step %r is no step" % (i, st)
+        m = 12 * (oc + 1) + STEP_PC[st] + al
+        if m != p:
+            return "row %d pitch %d spelled %s alter %d octave %d which sounds %d" % (i, p, st, al, oc, m)
+        if abs(al) > 2 and kpost >= 1:
+            return "row %d pitch %d spelled %s with alter %d (more than a double accidental)" % (i, p, st, al)
+    return None
+
+
+def _spell_map(stored, out):
+    m = {}
+    for r, s in zip(stored, out):
+        m.setdefault(r, []).append(s)
+    return {r: sorted(v) for r, v in m.items()}
+
+
+def orders_oracle(rows_a, rows_b, unit, kw):
+    """Two orders of the same rows: -> (None | description, spelling of rows_a, spelling of rows_b)."""
+    outs = []
+    for rows in (rows_a, rows_b):
+        try:
+            out = run_spelling_impl(rows, unit, kw)
+        except CpuBudgetExceeded as e:
+            return "estimate_spelling does not return: %s" % e, None, None
+        except Exception as e:
+            return "estimate_spelling raised %s: %s" % (type(e).__name__, e), None, None
+        bad = _judge_spelling(_rows_as_stored(rows, unit), out, kw.get("K_post", 40))
+        if bad:
+            return bad, out, None
+        outs.append(out)
+    sa, sb = _rows_as_stored(rows_a, unit), _rows_as_stored(rows_b, unit)
+    if sorted(sa) != sorted(sb):
+        return None, outs[0], outs[1]         # not two orders of one set of notes (a shrinking step): nothing to compare
+    ma, mb = _spell_map(sa, outs[0]), _spell_map(sb, outs[1])
+    for r in sorted(ma):
+        if ma[r] != mb[r]:
+            return ("row-order dependence: note (onset %r, duration %r, pitch %d) is spelled %r when the rows are in canonical (onset, pitch, duration) "
+                    "order and %r in the other order of the same rows" % (r[0], r[1], r[2], ma[r], mb[r])), outs[0], outs[1]
+    return None, outs[0], outs[1]
+
+
+def run_spelling_orders(ctx):
+    """Order independence where it is decided: arrays in which notes of equal (onset, pitch) and different duration sit late in
+    a dense chromatic context, each in up to seven row orders -- among them orders that are, like the canonical one, sorted
+    by (onset, pitch) and differ from it only inside the ties (an implementation that takes a sorted array as it comes, or
+    sorts by fewer keys, by a non-stable sort or by another tie-break, has nothing else to show for it).  Candidates in
+    which the members of such a unison are SPELLED DIFFERENTLY (the tie-break is observable) are counted, and those go to
+    the model in a non-canonical sorted order."""
+    rng = ctx.rng
+    count = 300 if ctx.tier == "quick" else 5000
+    cap = 45 if ctx.tier == "quick" else 600
+    terms, kept = [], []
+    nviol = sensitive = 0
+    for ci in range(count):
+        unit = rng.choice(UNITS)
+        rows = gen_unison_rows(rng, unit[1] == "i4")
+        kw = {}
+        if rng.random() < 0.2:
+            kw = {"K_pre": rng.choice([0, 1, 3, 10]), "K_post": rng.choice([1, 2, 5, 40])}
+        canon = _canonical(rows)
+        ctx.evaluations += 1
+        ctx.count("orders:candidate_arrays")
+        is_sensitive = None
+        for name, other in order_variants(rng, rows):
+            bad, out_a, out_b = orders_oracle(canon, other, unit, kw)
+            ctx.count("orders:pairs_of_row_orders_compared")
+            if is_sensitive is None and out_a is not None:
+                m = _spell_map([(o, p) for o, d, p in _rows_as_stored(canon, unit)], out_a)
+                is_sensitive = any(len(set(v)) > 1 for v in m.values())
+                if is_sensitive:
+                    sensitive += 1
+                    ctx.count("orders:arrays_where_notes_of_equal_onset_and_pitch_are_spelled_differently")
+                    ctx.nontrivial(("ord", _rows_as_stored(canon, unit), sorted(kw.items())))
+            case = {"kind": "spelling_orders", "rows_canonical": canon, "rows_other": other, "other_order": name, "unit": list(unit), "kwargs": kw}
+            if bad:
+                nviol += 1
+                if nviol <= 3:
+                    case = shrink_orders(case)
+                    bad2, a2, b2 = orders_oracle(case["rows_canonical"], case["rows_other"], tuple(case["unit"]), kw)
+                    case["got_canonical"], case["got_other"] = a2, b2
+                    ctx.violation("spelling: " + (bad2 or bad), case)
+                break
+            if is_sensitive and len(terms) < cap and name.startswith("sorted by (onset, pitch)") and out_b is not None \
+                    and (not kept or kept[-1]["rows_canonical"] is not canon):
+                stored = _rows_as_stored(other, unit)
+                ons = _ints([o for o, d, p in stored] + [d for o, d, p in stored])
+                nn = len(stored)
+                crow = clist([ctuple([cz(ons[i]), cz(stored[i][2]), cz(ons[nn + i])]) for i in range(nn)])
+                cout = clist([ctuple([cstr(st), cz(al), cz(oc)]) for st, al, oc in out_b])
+                terms.append(ctuple([cnat(kw.get("K_pre", 10)), cnat(kw.get("K_post", 40)), crow, cout]))
+                case["got_other"] = out_b
+                kept.append(case)
+    need = 5 if ctx.tier == "quick" else 60
+    ctx.obligation("order stream reaches the inputs on which the order of the ties is observable: in %d of %d arrays two notes of equal (onset, pitch) "
+                   "and different duration are spelled differently (at least %d wanted)" % (sensitive, count, need), sensitive >= need or nviol > 0, "")
+    if not terms:
+        return
+    failing = _coq_failing(ctx, "spelling_orders", "From PV Require Import Model.C17_Spelling Model.C17_Chroma.", terms, "spell_check_v", 15)
+    if failing is None:
+        return
+    ctx.obligation("correspondence: estimate_spelling = Model.C17_Chroma.spell_tab_v on %d arrays given SORTED by (onset, pitch) with the notes of equal "
+                   "(onset, pitch) NOT in the order of their durations, in each of which such notes are spelled differently" % len(terms), not failing, failing[:5])
+    for i in failing[:3]:
+        ctx.violation("spelling: implementation and model disagree on an array that is already sorted by (onset, pitch) (the theorems of Props/C17.v are about the model)", kept[i])
+
+
+def shrink_orders(case):
+    """fewer notes, both orders kept (a sub-list of a sorted list is sorted)."""
+    unit, kw = tuple(case["unit"]), case["kwargs"]
+    other = [tuple(r) for r in case["rows_other"]]
+
+    def fails(sub):
+        return bool(sub) and orders_oracle(_canonical(sub), sub, unit, kw)[0] is not None
+
+    try:
+        if fails(other):
+            small = core.ddmin(other, fails)
+            return dict(case, rows_canonical=_canonical(small), rows_other=small)
     except Exception:
         pass
     return case
@@ -1360,6 +1565,22 @@ def run_midi(ctx):
                         for tr, ch in sorted(groups)])
             terms.append(ctuple([cz(case["mode"]), cg, clist([clist([cz(x) for x in ps]) for ps in got])]))
             kept.append(dict(case, imported_pitches_by_distinct_onset=got))
+    # history: the importer called again on files it has already seen, in the opposite order, each with the options of
+    # another file in between (module-level state, options kept from an earlier call)
+    again = [c for c in kept if len(c["notes"]) <= 40][:10 if ctx.tier == "quick" else 120]
+    for k, c in enumerate(reversed(again)):
+        other = again[k % len(again)]
+        c2 = {x: c[x] for x in ("notes", "ppq", "ntracks", "mode", "timesig", "estimate_voice_info", "estimate_key", "off_as_on0", "from_file")}
+        c2["kind"] = "midi"
+        midi_oracle(dict(c2, mode=other["mode"], estimate_key=other["estimate_key"], estimate_voice_info=other["estimate_voice_info"]))
+        bad, got = midi_oracle(c2)
+        c2.pop("_observed", None)
+        ctx.evaluations += 1
+        ctx.count("midi:imported_again_after_other_files")
+        if bad or got != c["imported_pitches_by_distinct_onset"]:
+            nviol += 1
+            ctx.violation("midi: a file imported a second time (after other files) " + (bad or "gives other pitches than the first time: %r, first %r" % (got, c["imported_pitches_by_distinct_onset"])), c2)
+            break
     failing = _coq_failing(ctx, "midi", "From PV Require Import Model.C17_Midi.", terms, "midi_check", 12)
     if failing is not None:
         ctx.obligation("correspondence: the pitches of load_score_midi's score by onset rank = Model.C17_Midi.import_notes (groups per (track, channel), "
@@ -1370,6 +1591,358 @@ def run_midi(ctx):
     ctx.obligation("importer: the notes of load_score_midi's score carry exactly the file's pitches, onset by onset (pitch multiset at "
                    "the k-th distinct onset, for every k; %d files, all six part/voice modes, with and without voice and key estimation)"
                    % count, nviol == 0, "")
+
+
+# ----------------------------------------------------------------------------
+# 5. histories: the same entry points called again -- after another input, after an edit, on views
+
+
+PRESENTATIONS = ["plain", "plain", "readonly", "strided_view", "slice_view", "negative_stride_view", "column_view",
+                 "column_view_readonly", "pitch_int64", "pitch_int16", "recarray"]
+
+
+def _present(rows, unit, how):
+    """The note array of `rows` in one of the forms a caller may hold it in.  Views share their memory with a larger array
+    whose other rows / columns hold OTHER notes; column views list the fields in another order than they are stored."""
+    import numpy as np
+
+    a = _array(rows, unit)
+    n = len(a)
+    if how == "readonly":
+        a.flags.writeable = False
+    elif how == "strided_view":
+        big = np.zeros(2 * n + 1, dtype=a.dtype)
+        big[0::2]["pitch"] = 61
+        big[1::2] = a
+        a = big[1::2]
+    elif how == "slice_view":
+        big = np.zeros(n + 5, dtype=a.dtype)
+        big["pitch"] = 66
+        big[2:2 + n] = a
+        a = big[2:2 + n]
+    elif how == "negative_stride_view":
+        a = a[::-1].copy()[::-1]
+    elif how in ("column_view", "column_view_readonly"):
+        names = list(a.dtype.names)
+        wide = np.zeros(n, dtype=[("zz_label", "U4")] + [(nm, a.dtype[nm]) for nm in reversed(names)] + [("zz_weight", "f8")])
+        for nm in names:
+            wide[nm] = a[nm]
+        a = wide[names]
+        if how.endswith("readonly"):
+            a.flags.writeable = False
+    elif how in ("pitch_int64", "pitch_int16"):
+        a = a.astype([(nm, ("i8" if how == "pitch_int64" else "i2") if nm == "pitch" else a.dtype[nm]) for nm in a.dtype.names])
+    elif how == "recarray":
+        a = a.view(np.recarray)
+    return a
+
+
+def _current_rows(arr, unit):
+    u = unit[0]
+    return [(float(o), float(d), int(p)) for o, d, p in zip(arr["onset_" + u], arr["duration_" + u], arr["pitch"])]
+
+
+def _ep_name(ep):
+    return "%s(%s)" % (ep[0], ", ".join("%s=%r" % kv for kv in sorted(ep[1].items())))
+
+
+def _ep_call(ep, arr):
+    """-> (raw result, value).  ep = [function name, keyword arguments]."""
+    from partitura.musicanalysis import estimate_spelling, estimate_voices, estimate_key
+
+    fn = {"estimate_spelling": estimate_spelling, "estimate_voices": estimate_voices, "estimate_key": estimate_key}[ep[0]]
+    with _cpu_budget(CPU_BUDGET_S, ep[0]):
+        raw = fn(arr, **ep[1])
+    return raw, _ep_value(ep, raw)
+
+
+def _ep_value(ep, raw):
+    if ep[0] == "estimate_spelling":
+        return [(str(s["step"]), int(s["alter"]), int(s["octave"])) for s in raw]
+    if ep[0] == "estimate_voices":
+        return [int(x) for x in raw]
+    return raw
+
+
+def _judge_voices(stored, v, mono):
+    if len(v) != len(stored):
+        return "estimate_voices returned %d voices for %d notes" % (len(v), len(stored))
+    if min(v) < 1:
+        return "voice %d is not positive" % min(v)
+    missing = sorted(set(range(1, max(v) + 1)) - set(v))
+    if missing:
+        return "voice numbers %r are not used although voice %d is (gap)" % (missing[:5], max(v))
+    if not mono:
+        g = {}
+        for (o, d, p), x in zip(stored, v):
+            g.setdefault((o, d), set()).add(x)
+        for key in sorted(g):
+            if len(g[key]) > 1:
+                return "chord mode: notes with onset %r and duration %r are in voices %r" % (key[0], key[1], sorted(g[key]))
+    return None
+
+
+def _judge_ep(ep, stored, value, names):
+    if ep[0] == "estimate_spelling":
+        return _judge_spelling(stored, value, ep[1].get("K_post", 40))
+    if ep[0] == "estimate_voices":
+        return _judge_voices(stored, value, ep[1].get("monophonic_voices", True))
+    if not isinstance(value, str) or value not in names or _name_pc_mode(value) is None:
+        return "estimate_key returned %r which is not one of the 24 valid key names" % (value,)
+    return None
+
+
+def run_history(case, names, observe=None):
+    """Interpreter of one history.  case: {"unit", "arrays": {name: {"rows", "as"}}, "steps": [...]}; steps:
+      {"op": "call", "ep": [fn, kwargs], "on": name}   call the entry point on the caller's array object `name`
+      {"op": "scribble"}                               overwrite every array returned so far (they are the caller's)
+      {"op": "edit", "on": name, "set": [[row, field, value], ...], "swap": [i, j] | None, "reverse": bool}
+                                                       change the caller's array in place
+    Every call is judged against the CURRENT content of the array it was made on (read back after the call): the statement
+    of the property, and equality with the same call on a freshly built plain array holding the current rows; arrays
+    returned by earlier calls must still read as they did (until the caller overwrites them).
+    -> None | description.  observe(ep, stored rows, value) is called for every judged call."""
+    import numpy as np
+
+    unit = tuple(case["unit"])
+    u = unit[0]
+    arrays = {k: _present([tuple(r) for r in v["rows"]], unit, v["as"]) for k, v in sorted(case["arrays"].items())}
+    held = []         # [ep, raw, value as first read]
+    firsts = {}       # (call, rows) -> (first answer, step)
+    for si, st in enumerate(case["steps"]):
+        if st["op"] == "scribble":
+            for h in held:
+                raw = h[1]
+                try:
+                    if isinstance(raw, np.ndarray) and raw.dtype.names:
+                        raw["step"], raw["alter"], raw["octave"] = "X", 9, -3
+                    elif isinstance(raw, np.ndarray):
+                        raw[...] = 0
+                except Exception:
+                    pass
+            held = []
+            continue
+        arr = arrays.get(st["on"])
+        if arr is None:
+            continue
+        if st["op"] == "edit":
+            if not arr.flags.writeable:
+                continue
+            n = len(arr)
+            for i, field, val in st.get("set", []):
+                if i < n:
+                    arr[{"pitch": "pitch", "onset": "onset_" + u, "duration": "duration_" + u}[field]][i] = val
+            if st.get("swap") and max(st["swap"]) < n:
+                i, j = st["swap"]
+                tmp = arr[i].copy()
+                arr[i] = arr[j]
+                arr[j] = tmp
+            if st.get("reverse"):
+                arr[:] = arr[::-1].copy()
+            continue
+        ep = st["ep"]
+        where = "step %d, %s on array %r (%s, %d rows)" % (si, _ep_name(ep), st["on"], case["arrays"][st["on"]]["as"], len(arr))
+        before = _current_rows(arr, unit)
+        try:
+            raw, value = _ep_call(ep, arr)
+        except CpuBudgetExceeded as e:
+            return "%s does not return: %s" % (where, e)
+        except Exception as e:
+            return "%s raised %s: %s" % (where, type(e).__name__, str(e)[:200])
+        stored = _current_rows(arr, unit)
+        bad = _judge_ep(ep, stored, value, names)
+        if bad:
+            return "%s: %s%s" % (where, bad, "" if stored == before else " (the call changed the caller's array)")
+        for h in held:
+            try:
+                now = _ep_value(h[0], h[1])
+            except Exception as e:
+                now = "unreadable (%s)" % type(e).__name__
+            if now != h[2]:
+                k = 0 if isinstance(now, str) or len(now) != len(h[2]) else next(i for i in range(len(now)) if now[i] != h[2][i])
+                return "%s: the array returned by an earlier call of %s changed when the function was called again (its entry %d was %r, now reads %r)" % (
+                    where, _ep_name(h[0]), k, h[2][k], now if isinstance(now, str) else now[k])
+        key = (_ep_name(ep), tuple(stored))
+        if key in firsts and firsts[key][0] != value:
+            return ("%s: gives %r; the same call on the same rows gave %r at step %d of this history -- the answer depends on what was asked before" % (
+                where, value if isinstance(value, str) else value[:8], firsts[key][0] if isinstance(value, str) else firsts[key][0][:8], firsts[key][1]))
+        firsts.setdefault(key, (value, si))
+        try:
+            fresh = _ep_call(ep, _array(stored, unit))[1]
+        except BaseException as e:
+            if isinstance(e, KeyboardInterrupt):
+                raise
+            return "%s: the same call on a freshly built array of the current rows raised %s" % (where, type(e).__name__)
+        if fresh != value:
+            diff = "" if isinstance(value, str) else " (first difference at row %d)" % next(i for i in range(len(value)) if value[i] != fresh[i])
+            return "%s: gives %r, the same call on a freshly built array holding the same rows gives %r%s -- the answer depends on more than the current input" % (
+                where, value if isinstance(value, str) else value[:8], fresh if isinstance(fresh, str) else fresh[:8], diff)
+        if not isinstance(raw, str):
+            held.append([ep, raw, value])
+        if observe is not None:
+            observe(ep, stored, value, si)
+    return None
+
+
+def gen_history(rng, accepted_names):
+    """One drawn history over two arrays `a` and `b` of one layout."""
+    unit = rng.choice(UNITS)
+    it = unit[1] == "i4"
+    n = rng.choice([3, 6, 12, 20, 35, 60])
+    shape = rng.random()
+    if shape < 0.35:
+        A = gen_unison_rows(rng, it)[:max(n, 14)]
+    else:
+        A = gen_rows(rng, n, 21, 108, int_times=it, tonal=rng.random() < 0.5)
+    r = rng.random()
+    if r < 0.4:         # same length, same times, other pitches: what a cache keyed by shape / times / identity confuses
+        B = [(o, d, 21 + (p - 21 + rng.choice([1, 2, 5, 6, 7])) % 88) for o, d, p in A]
+    elif r < 0.6:       # same pitches, other durations and order
+        durs = [1, 2, 3, 4] if it else [0.25, 0.5, 1, 2]
+        B = [(o, rng.choice(durs), p) for o, d, p in A][::-1]
+    else:
+        B = gen_rows(rng, rng.choice([n, n, max(1, n // 2), n + 7]), 21, 108, int_times=it, tonal=rng.random() < 0.5)
+    eps = [["estimate_spelling", {}], ["estimate_voices", {}], ["estimate_voices", {"monophonic_voices": False}],
+           ["estimate_voices", {"monophonic_voices": True}], ["estimate_key", {}]]
+    eps.append(["estimate_spelling", {"K_pre": rng.choice([0, 1, 3]), "K_post": rng.choice([1, 2, 5])}])
+    eps += [["estimate_key", {"key_profiles": nm}] for nm in rng.sample(accepted_names, min(2, len(accepted_names)))]
+    rng.shuffle(eps)
+    eps = eps[:rng.randint(3, 6)]
+    steps = []
+    first, second = rng.choice([("a", "b"), ("b", "a")])
+    steps += [{"op": "call", "ep": ep, "on": first} for ep in eps]
+    steps += [{"op": "call", "ep": ep, "on": second} for ep in eps]
+    steps += [{"op": "call", "ep": ep, "on": first} for ep in reversed(eps)]
+    if rng.random() < 0.7:
+        steps.append({"op": "scribble"})
+        steps += [{"op": "call", "ep": ep, "on": rng.choice("ab")} for ep in eps]
+    for _ in range(rng.randint(1, 2)):
+        on = rng.choice("ab")
+        m = len(A if on == "a" else B)
+        kind = rng.random()
+        ed = {"op": "edit", "on": on, "set": [], "swap": None, "reverse": False}
+        if kind < 0.45:
+            for _ in range(rng.randint(1, max(1, m // 3))):
+                ed["set"].append([rng.randrange(m), "pitch", rng.randint(21, 108)])
+        elif kind < 0.7:
+            for _ in range(rng.randint(1, max(1, m // 3))):
+                ed["set"].append([rng.randrange(m), "duration", rng.choice([0, 1, 2, 4, 8] if it else [0, 0.25, 0.5, 2, 4, 8])])
+        elif kind < 0.8:
+            for _ in range(rng.randint(1, 3)):
+                ed["set"].append([rng.randrange(m), "onset", rng.choice([0, 1, 2, 5, 9])])
+        elif kind < 0.9 and m >= 2:
+            ed["swap"] = rng.sample(range(m), 2)
+        else:
+            ed["reverse"] = True
+        steps.append(ed)
+        steps += [{"op": "call", "ep": ep, "on": on} for ep in eps]
+        if rng.random() < 0.5:
+            steps += [{"op": "call", "ep": ep, "on": "b" if on == "a" else "a"} for ep in eps[:2]]
+    hows = [rng.choice(PRESENTATIONS), rng.choice(PRESENTATIONS)]
+    return {"kind": "history", "unit": list(unit), "arrays": {"a": {"rows": A, "as": hows[0]}, "b": {"rows": B, "as": hows[1]}}, "steps": steps}
+
+
+def run_histories(ctx, K):
+    """State carried between calls: estimate_spelling / estimate_voices / estimate_key (and their options) called on two
+    arrays in both orders, again after the other input, after the caller overwrote the returned arrays, after the caller
+    edited the array in place; the arrays are plain, read-only, strided / sliced / reversed views of larger arrays, views
+    selecting columns, with other integer widths of the pitch column.  Every answer is judged against the current rows
+    alone; the last spelling and key answers of every history also go to the (stateless) models."""
+    rng = ctx.rng
+    count = 45 if ctx.tier == "quick" else 900
+    names = K["names"]
+    accepted = [a for a in K["valid_profiles"] if a in PROFILE_SETS]
+    sp_terms, sp_kept, key_terms, key_kept = [], [], [], []
+    nviol = 0
+    for ci in range(count):
+        case = gen_history(rng, accepted)
+        last = {}
+
+        spelled = []
+
+        def observe(ep, stored, value, si, last=last, spelled=spelled):
+            last[_ep_name(ep)] = (ep, stored, value, si)
+            if ep[0] == "estimate_spelling":
+                spelled.append((ep, stored, value, si))
+            ctx.evaluations += 1
+            ctx.count("history:calls_of_" + ep[0])
+
+        ctx.count("history:histories")
+        for k in ("a", "b"):
+            ctx.count("history:array_as_" + case["arrays"][k]["as"])
+        for st in case["steps"]:
+            if st["op"] != "call":
+                ctx.count("history:step_" + st["op"] + ("" if st["op"] != "edit" else "_" + ("reverse" if st["reverse"] else "swap" if st["swap"] else st["set"][0][1])))
+        bad = run_history(case, names, observe)
+        if bad:
+            nviol += 1
+            if nviol <= 3:
+                def fails(sub, case=case):
+                    return run_history(dict(case, steps=sub), names) is not None
+                try:
+                    if nviol == 1:      # one history is minimised (every probe replays a whole history)
+                        case["steps"] = core.ddmin(case["steps"], fails)
+                    used = {st.get("on") for st in case["steps"]}
+                    case["arrays"] = {k: v for k, v in case["arrays"].items() if k in used}
+                except Exception:
+                    pass
+                ctx.violation("history: " + (run_history(case, names) or bad), case)
+            continue
+        ctx.nontrivial(("hist", json.dumps(case, sort_keys=True, default=str)))
+        unit = tuple(case["unit"])
+        spelled = spelled[-6:]
+        if spelled:
+            # the spelling calls of this history as a history of the model's machine: HSet whenever the rows the call saw
+            # are not the rows the previous call saw (the other array, an edit in place), then HCall (K_pre, K_post)
+            times = sorted({t for ep, stored, value, si in spelled for o, d, p in stored for t in (o, d)})
+            scale = dict(zip(times, _ints(times)))
+
+            def crows(stored):
+                return clist([ctuple([cz(scale[o]), cz(p), cz(scale[d])]) for o, d, p in stored])
+
+            cur, hsteps, outs = spelled[0][1], [], []
+            for ep, stored, value, si in spelled:
+                if stored != cur:
+                    hsteps.append("(HSet %s)" % crows(stored))
+                    cur = stored
+                hsteps.append("(HCall %s)" % ctuple([cnat(ep[1].get("K_pre", 10)), cnat(ep[1].get("K_post", 40))]))
+                outs.append(clist([ctuple([cstr(st), cz(al), cz(oc)]) for st, al, oc in value]))
+            sp_terms.append(ctuple([crows(spelled[0][1]), clist(hsteps), clist(outs)]))
+            sp_kept.append(dict(case, judged_steps=[si for _, _, _, si in spelled]))
+            ctx.count("history:spelling_calls_to_the_state_machine_model", len(spelled))
+            ctx.count("history:changes_of_the_rows_between_those_calls", sum(1 for x in hsteps if x.startswith("(HSet")))
+        for ep, stored, value, si in last.values():
+            if ep[0] == "estimate_key":
+                name = ep[1].get("key_profiles")
+                margin, _ = _margin(stored, 0 if name is None else PROFILE_SETS[name])
+                exact_sum = all(Fraction(d) * 16 == int(Fraction(d) * 16) and d < 4096 for o, d, p in stored)
+                if margin is not None and margin < (1e-9 if exact_sum else 1e-4):
+                    ctx.count("history:key_near_tie_skipped")
+                    continue
+                ds = _ints([d for o, d, p in stored])
+                key_terms.append(ctuple([core.copt(name, cstr), clist([ctuple([cz(stored[i][2]), cz(ds[i])]) for i in range(len(stored))]), cstr(value)]))
+                key_kept.append(dict(case, judged_step=si, current_rows=stored, got=value))
+    ctx.log("histories: implementation done, %d + %d cases to the models" % (len(sp_terms), len(key_terms)))
+    ctx.obligation("histories: every answer of estimate_spelling / estimate_voices / estimate_key in %d histories (two arrays in both orders, repeated calls, "
+                   "returned arrays overwritten, arrays edited in place; plain / read-only / view arrays) satisfies the statement on the CURRENT rows and "
+                   "equals the same call on a freshly built array" % count, nviol == 0, "")
+    for nm, terms, kept, imports, checker, ty, what in (
+            ("history_spelling", sp_terms, sp_kept, "From PV Require Import Model.C17_Spelling Model.C17_Chroma Model.C17_History.", "history_check",
+             "list row * list (@hstep (list row) (nat * nat)) * list (list (string * Z * Z))",
+             "the answers of estimate_spelling along every history (the last 6 calls of each) are the answers of the stateless machine Model.C17_History.hrun "
+             "over spell_tab_v on the rows the array held at each call (theorem spelling_history_answers_current_rows)"),
+            ("history_key", key_terms, key_kept, "From PV Require Import Model.C17_Key Model.C17_KeyApi.", "key_check_api", None,
+             "the LAST answer of estimate_key for each option in every history -- after the other array, after in-place edits -- is the stateless model's "
+             "answer on the rows the array held then")):
+        if not terms:
+            continue
+        failing = _coq_failing(ctx, nm, imports, terms, checker, 8 if nm == "history_spelling" else 60, ty=ty)
+        if failing is None:
+            continue
+        ctx.log("histories: %s evaluated" % nm)
+        ctx.obligation("correspondence (%s): %s (%d cases)" % (nm, what, len(terms)), not failing, failing[:5])
+        for i in failing[:3]:
+            ctx.violation("history: the answer at the end of a history is not the model's answer on the current rows (%s)" % checker, kept[i])
 
 
 # ----------------------------------------------------------------------------
@@ -1450,11 +2023,25 @@ def run(ctx):
                 "midi: files built with mido from such arrays and from sweep points (pitches 21..108, 0..30% zero-length notes), 1..3 tracks, "
                 "channels 0/1/9, note ends as note_off or note_on velocity 0, MidiFile object or file on disk, all six part-voice modes, with/without "
                 "voice and key estimation; compared: the pitch multiset at the k-th distinct onset.  "
+                "orders: 300 (thorough 5000) dense chromatic passages in which, from the tenth note on, a third of the notes are doubled by notes of the "
+                "same onset and pitch and another duration (zero included), each in the canonical order and in up to seven others -- sorted by (onset, "
+                "pitch) with the ties by decreasing duration / in a drawn order / one late tie exchanged, sorted by onset only (pitch decreasing / drawn), "
+                "reversed, shuffled; 20% non-default K_pre/K_post; arrays where the members of such a unison are spelled differently are counted (an "
+                "obligation demands some) and go to the model in a sorted non-canonical order.  "
+                "histories: 45 (900) histories over two arrays of one layout (40% same length and times with other pitches, 20% same pitches with other "
+                "durations in reverse order), 3..6 entry points with options (spelling +-K, voices default/mono/chord, key default + two names): all on the "
+                "first array, all on the second, the first again in reverse, the returned arrays overwritten and asked again, one or two edits in place "
+                "(pitches / durations / onsets / two rows exchanged / all rows reversed) each followed by all calls; arrays plain, read-only, strided / "
+                "sliced / negative-stride views of larger arrays, column views listing the fields in another order than stored (also read-only), pitch "
+                "as int64 / int16, recarray; every answer judged against the rows the array holds after the call, against the same call on a freshly built "
+                "array, against the first answer to the same call on the same rows, earlier results re-read after every call; the importer is run again "
+                "on ten files it has seen, in the opposite order, with another file's options in between.  "
                 "Every call of the implementation runs under a CPU-time budget (ITIMER_VIRTUAL, 30 s; estimate_voices on 300 notes needs 0.15 s): "
                 "a call that does not return is a violation.  "
                 "Non-trivial = spelling array with >= 2 rows that has an altered note or two rows of equal (onset, pitch); chroma array with >= 2 "
                 "chromas; voice array with >= 2 rows and more than one voice, a zero-duration note or a chord; cost matrix of >= 2 x 2; key array "
-                "with >= 3 pitch classes and a defined correlation; MIDI file with >= 2 notes of >= 2 pitch classes.")
+                "with >= 3 pitch classes and a defined correlation; MIDI file with >= 2 notes of >= 2 pitch classes; order-stream array in which two "
+                "notes of equal (onset, pitch) are spelled differently; every history that was judged to the end.")
     ctx.trusted = ["Coq 8.16.1 kernel incl. vm_compute",
                    "harness/props/c17.py: generators, reflection BY VALUE of the ps13 tables (read off compute_morph_array by probing it with "
                    "one- and two-note inputs; if that function is gone, off estimate_spelling on one- and four-note arrays; last resort: literals "
@@ -1476,11 +2063,11 @@ def run(ctx):
     ctx.count("reflection:ps13 tables from " + P.get("tables_from", "?"))
     if P.get("tables_agree_with_api_probe") is False:
         ctx.count("reflection:tables probed through estimate_spelling differ from those probed in compute_morph_array(not demanded)")
-    ok, why = ctx.coq_props(expect_min=54)
+    ok, why = ctx.coq_props(expect_min=62)
     nv0 = len(ctx.violations) + sum(ctx.known_hits.values())
     ctx.log("props: %s" % ("ok" if ok else "FAILED"))
     note_table_oracle(ctx, P["steps"])
-    for name, fn in (("spelling", run_spelling), ("chroma", run_chroma), ("voices", run_voices), ("contig", run_contig), ("key", lambda c: run_key(c, K)), ("midi", run_midi)):
+    for name, fn in (("spelling", run_spelling), ("spelling_orders", run_spelling_orders), ("chroma", run_chroma), ("voices", run_voices), ("contig", run_contig), ("key", lambda c: run_key(c, K)), ("midi", run_midi), ("histories", lambda c: run_histories(c, K))):
         t0 = time.time()
         fn(ctx)
         ctx.log("%s stream done in %.1fs" % (name, time.time() - t0))
@@ -1504,6 +2091,19 @@ def replay(obj):
         bad, out = spelling_oracle(rows, tuple(r["unit"]), r["kwargs"], r["perm"])
         print("estimate_spelling now gives:", out)
         print("oracle:", bad or "property holds on this input")
+    elif kind == "spelling_orders":
+        a, b = [tuple(x) for x in r["rows_canonical"]], [tuple(x) for x in r["rows_other"]]
+        bad, oa, ob = orders_oracle(a, b, tuple(r["unit"]), r["kwargs"])
+        print("estimate_spelling now gives, rows in canonical order:", oa)
+        print("estimate_spelling now gives, rows in the other order:", ob)
+        print("oracle:", bad or "property holds on this input")
+    elif kind == "history":
+        P, K = gen()
+        seen = []
+        bad = run_history(r, K["names"], lambda ep, stored, value, si: seen.append((si, _ep_name(ep), value if isinstance(value, str) else value[:12])))
+        for x in seen:
+            print("step %d %s ->" % (x[0], x[1]), x[2])
+        print("oracle:", bad or "property holds on this history")
     elif kind == "voices":
         rows = [tuple(x) for x in r["rows"]]
         bad, v, calls = voices_oracle(rows, tuple(r["unit"]), r["monophonic_voices"])
